@@ -8,6 +8,7 @@ import (
 	"sort"
 	"strings"
 
+	"github.com/openconfig/ygot/ygot"
 	"github.com/openconfig/ygot/ytypes"
 	"github.com/openconfig/ygot/zzverif/lib"
 )
@@ -145,11 +146,34 @@ func runC31(r *lib.Run) {
 				r.Hit("dont-care:ordered-list-on-both-sides")
 				continue
 			}
-			doc, err := ot.SubtreeJSON(nil)
+			rng := rand.New(rand.NewSource(r.Seed*53 + int64(i)))
+			// every fourth case the document is unmarshalled into ONE keyed-list entry of the existing
+			// tree (generated Unmarshal on a sub-struct / SetNode with JSON on a list entry) instead of
+			// the root: the options given must reach everything below that entry too
+			var scopePath []lib.PathElem
+			var scopeDst ygot.GoStruct
+			if i%4 == 3 {
+				inT := map[string]bool{}
+				for _, nd := range cfg.Nodes(T) {
+					inT[lib.PathString(nd.Path)] = true
+				}
+				var cands []*lib.Node
+				for _, nd := range cfg.Nodes(E) {
+					if nd.IsEntry && !nd.Keyless && nd.Field.Kind == lib.KList && inT[lib.PathString(nd.Path)] {
+						cands = append(cands, nd)
+					}
+				}
+				if len(cands) > 0 {
+					nd := cands[rng.Intn(len(cands))]
+					if gs, ok := nd.V.Interface().(ygot.GoStruct); ok {
+						scopePath, scopeDst = nd.Path, gs
+					}
+				}
+			}
+			doc, err := ot.SubtreeJSON(scopePath)
 			if err != nil || len(doc) == 0 {
 				continue
 			}
-			rng := rand.New(rand.NewSource(r.Seed*53 + int64(i)))
 			variant := []string{"plain", "unknown", "unknown+ignore"}[i%7%3]
 			where := ""
 			if variant != "plain" {
@@ -159,15 +183,29 @@ func runC31(r *lib.Run) {
 			r.Hit("pair:" + kind)
 			r.Hit("variant:" + variant)
 			r.Case(cfg.Name+variant+strings.Join(oe.Dump(), "\n")+"<-"+string(js), len(oe.Leaves) >= 3 && len(ot.Leaves) >= 3)
-			w := wit(cfg, r.Seed, i, map[string]interface{}{"variant": variant, "unknown_at": where, "existing": oe.Dump(), "json": lib.Clip(string(js), 6000)})
+			w := wit(cfg, r.Seed, i, map[string]interface{}{"variant": variant, "scope": lib.PathString(scopePath), "unknown_at": where, "existing": oe.Dump(), "json": lib.Clip(string(js), 6000)})
 			model := lib.NewModel(cfg, oe)
-			model.WriteSubtree(ot, nil)
+			model.WriteSubtree(ot, scopePath)
+			scope := "root"
+			if scopeDst != nil {
+				scope = "list-entry"
+			}
+			r.Hit("scope:" + scope)
 			var opts []ytypes.UnmarshalOpt
 			if variant == "unknown+ignore" {
 				opts = append(opts, &ytypes.IgnoreExtraFields{})
 			}
 			var uerr error
-			if r.Guard("Unmarshal", w, func() { uerr = cfg.UnmarshalJSON(js, E, opts...) }) {
+			if r.Guard("Unmarshal", w, func() {
+				if scopeDst != nil {
+					var tree interface{}
+					if uerr = json.Unmarshal(js, &tree); uerr == nil {
+						uerr = cfg.UnmarshalValue(tree, scopeDst, opts...)
+					}
+					return
+				}
+				uerr = cfg.UnmarshalJSON(js, E, opts...)
+			}) {
 				continue
 			}
 			if variant == "unknown" {
@@ -205,13 +243,14 @@ func runC31(r *lib.Run) {
 			}
 			if !bad {
 				r.Hit("merged-ok:" + variant)
+				r.Hit("merged-ok:" + scope + ":" + variant)
 			}
 			if i < 3 {
 				r.Sample(map[string]interface{}{"cfg": cfg.Name, "variant": variant, "existing_leaves": len(oe.Leaves), "json_leaves": len(ot.Leaves), "result_leaves": len(cfg.Observe(E).Leaves)})
 			}
 		}
 	}
-	r.RequireCov("merged-ok:plain", "merged-ok:unknown+ignore", "unknown-rejected", "pair:mutated", "pair:independent")
+	r.RequireCov("merged-ok:plain", "merged-ok:unknown+ignore", "merged-ok:list-entry:unknown+ignore", "merged-ok:list-entry:plain", "unknown-rejected", "pair:mutated", "pair:independent")
 }
 
 var _ = fmt.Sprintf
